@@ -5,6 +5,7 @@ import (
 	"crypto/sha256"
 	"fmt"
 	"net"
+	"runtime"
 	"runtime/debug"
 	"strings"
 	"testing"
@@ -135,6 +136,38 @@ func Bubble(t *testing.T, rc *RunCtx, body func(s *Sim)) {
 		}()
 		body(s)
 	})
+}
+
+// BubbleGoroutines returns the stack blocks of all goroutines of the calling
+// goroutine's bubble except the caller itself (call from inside a bubble).
+func BubbleGoroutines() []string {
+	buf := make([]byte, 4<<20)
+	n := runtime.Stack(buf, true)
+	blocks := strings.Split(string(buf[:n]), "\n\n")
+	if len(blocks) == 0 {
+		return nil
+	}
+	// the first block is the caller
+	self := blocks[0]
+	i := strings.Index(self, "synctest bubble ")
+	if i < 0 {
+		return nil
+	}
+	tag := self[i:]
+	if j := strings.IndexAny(tag, "]\n"); j > 0 {
+		tag = tag[:j]
+	}
+	var out []string
+	for _, b := range blocks[1:] {
+		head := b
+		if k := strings.Index(b, "\n"); k > 0 {
+			head = b[:k]
+		}
+		if strings.Contains(head, tag+"]") || strings.Contains(head, tag+",") {
+			out = append(out, b)
+		}
+	}
+	return out
 }
 
 // UseNet routes the Listen/Dial seams of the code under test to n.
